@@ -152,6 +152,46 @@ pub fn build(g: &Grammar, thorough: bool) -> Vec<Case7> {
             }
         }
     }
+    // the unknown element behind IF_DATA blocks that were tried against one or two A2ML definitions (conforming, with a wrong
+    // value, with a member missing, with a tag the definition does not know, fitting only the second definition): whatever the
+    // attempts did to the parser must not reach the rest of the file
+    {
+        let defs = ["block \"IF_DATA\" taggedunion { \"ZZ\" uint; \"YY\" struct { uint; uint; }; };", "block \"IF_DATA\" taggedunion { \"ZZ\" float; \"WW\" char[8]; };"];
+        let ifdatas = ["ZZ 1", "ZZ x", "YY 1", "QQ 1", "WW \"s\"", "ZZ 1.5", "YY 1 2 3"];
+        for ndefs in 1..=2usize {
+            for ifd in ifdatas {
+                for ifd_place in 0..2usize {
+                    for (pn, is_block, payload) in PAYLOADS {
+                        for upos in 0..3usize {
+                            let unknown = if is_block { format!("/begin UNKNOWN_TAG {payload} /end UNKNOWN_TAG") } else { format!("UNKNOWN_TAG {payload}") };
+                            let doc = |with: bool| {
+                                let u = |at: usize| if with && upos == at { format!("    {unknown}\n") } else { String::new() };
+                                let mut t = String::from("ASAP2_VERSION 1 71\n/begin PROJECT p \"\"\n");
+                                if ndefs == 2 {
+                                    t.push_str(&format!("  /begin MODULE m0 \"\"\n    /begin A2ML\n      {}\n    /end A2ML\n  /end MODULE\n", defs[1]));
+                                }
+                                t.push_str(&format!("  /begin MODULE m \"\"\n    /begin A2ML\n      {}\n    /end A2ML\n", defs[0]));
+                                if ifd_place == 0 {
+                                    t.push_str(&format!("    /begin IF_DATA {ifd}\n    /end IF_DATA\n"));
+                                }
+                                t.push_str(&u(0));
+                                t.push_str("    /begin MEASUREMENT x \"\" UBYTE NO_COMPU_METHOD 0 0 0 255\n");
+                                if ifd_place == 1 {
+                                    t.push_str(&format!("      /begin IF_DATA {ifd}\n      /end IF_DATA\n"));
+                                }
+                                t.push_str(&u(1));
+                                t.push_str("      ECU_ADDRESS 0x10\n    /end MEASUREMENT\n");
+                                t.push_str(&u(2));
+                                t.push_str("    /begin MEASUREMENT y \"\" UBYTE NO_COMPU_METHOD 0 0 0 255\n    /end MEASUREMENT\n  /end MODULE\n/end PROJECT\n");
+                                t
+                            };
+                            out.push(Case7 { label: format!("unknown({pn}) at place {upos} behind IF_DATA [{ifd}] ({}) tried against {ndefs} A2ML definition(s)", ["module level", "inside the MEASUREMENT"][ifd_place]), class: format!("{pn}@behind-ifdata"), with: doc(true), without: doc(false), tag: "UNKNOWN_TAG".into() });
+                        }
+                    }
+                }
+            }
+        }
+    }
     out
 }
 
